@@ -754,7 +754,8 @@ Notes:
         if self._energy_history is not None and self._live:
             self.energy_history = None # resync with 'best' energy
             self._stepmon(self.bestSolution, self.bestEnergy, self.id)
-            # if savefrequency matches, then save state
+            # if savefrequency matches, then save state (of the finalized solver)
+            self._live = False
             self._AbstractSolver__save_state()
         self._live = False
         return
